@@ -4,7 +4,7 @@ from __future__ import annotations
 DEFAULT = {
     "yield": 22, "sleep": 8, "wait": 6, "set": 3, "forever": 3, "scope": 16, "cancel": 12, "shield": 3,
     "group": 10, "spawn": 10, "start": 0, "catch": 9, "raise": 3, "return": 1, "ntimeout": 0, "ntg": 0,
-    "max_depth": 4, "max_stmts": 60, "ext": 2, "native_ext": 0, "wrap": 0, "configs": ["S", "S", "E", "U"],
+    "setdl": 0, "max_depth": 4, "max_stmts": 60, "ext": 2, "native_ext": 0, "wrap": 0, "configs": ["S", "S", "E", "U"],
     "deadlines": True, "patterns": {},
 }
 
@@ -49,6 +49,7 @@ def gen_program(g, prof):
                  (prof["forever"], "forever"),
                  (prof["cancel"] if st["names"] else 0, "cancel"),
                  (prof["shield"] if own_scopes else 0, "shield"),
+                 (prof["setdl"] if own_scopes or st["names"] else 0, "setdl"),
                  (prof["raise"], "raise"), (prof["return"] if in_child else 0, "return")]
             if depth < prof["max_depth"]:
                 w += [(prof["scope"], "scope"), (prof["group"], "group"), (prof["catch"], "catch"),
@@ -70,6 +71,11 @@ def gen_program(g, prof):
                 out.append(["cancel", g.choice(st["names"])])
             elif k == "shield":
                 out.append(["shield", g.choice(own_scopes), g.bool()])
+            elif k == "setdl":
+                st["frac"] += 1
+                pool = own_scopes if own_scopes and g.chance(80) else st["names"]
+                out.append(["setdl", g.choice(pool), g.choice([0.5, 2.5, 6.5, 20.5, -1.5, float("inf")])
+                            + (2.0 ** -(st["frac"] + 3))])
             elif k == "raise":
                 out.append(["raise", st["n"] * 10 + g.int(0, 9)])
                 break
